@@ -6,6 +6,7 @@ import AmqModel.Driver.UrlEngine
 import AmqModel.Driver.MachineEngine
 import AmqModel.Driver.ApiEngine
 import AmqModel.Driver.HandshakeEngine
+import AmqModel.Driver.HeartbeatEngine
 namespace AmqModel.Driver
 
 def engineByName : String → Option Engine
@@ -23,6 +24,7 @@ def engineByName : String → Option Engine
   | "api" => some apiEngine
   | "hs" => some handshakeEngine
   | "hs-legacy" => some handshakeLegacyEngine
+  | "heartbeat" => some heartbeatEngine
   | _ => none
 
 end AmqModel.Driver
